@@ -1,4 +1,6 @@
 import IsoMdl.Model.DeviceAuthReq
+import IsoMdl.Model.ResponseFacts
+import IsoMdl.Lemmas.Cbor
 /-
 C11 — Device reports reader authentication Valid only for a verified, trusted reader.
 -/
@@ -62,6 +64,45 @@ theorem C11_valid_reported (reqs : List ReqFacts) (hne : reqs ≠ []) (h : ∀ r
 theorem C11_unchecked_unless_decoded (d1 d2 : Bool) (reqs : List ReqFacts) (h : (d1 && d2) = false) :
     requestStatus d1 d2 reqs = .unchecked := by
   simp [requestStatus, h]
+
+section Wire
+open IsoMdl.ResponseFacts
+
+/-- ReaderAuthenticationBytes = #6.24(bstr .cbor ["ReaderAuthentication", SessionTranscript, ItemsRequestBytes]) -/
+def readerAuthenticationBytes (transcript : Cbor) (items : Bytes) : Bytes :=
+  Cbor.enc (.tag 24 (.bytes (Cbor.enc (.array [ResponseFacts.tx "ReaderAuthentication", transcript, .tag 24 (.bytes items)]))))
+
+/-- READER AUTHENTICATION FROM THE WIRE: when the model's `sigAccepts` fact holds for a document request
+(`readerSigAccepts`, compared with the harness's own verification on every request), the signature in
+its readerAuth verifies under the given key over Sig_structure(protected,
+ReaderAuthenticationBytes) built from THIS session's transcript and the ItemsRequestBytes of THIS
+request exactly as received. -/
+theorem C11_wire_reader_signature_bound (docRequest transcript : Cbor) (key : Option (Nat × Nat))
+    (h : readerSigAccepts docRequest transcript key = true) :
+    ∃ items prot u1 u2 sig x y, fget docRequest "itemsRequest" = some (.tag 24 (.bytes items)) ∧
+      (fget docRequest "readerAuth").bind coseArr = some [.bytes prot, u1, u2, .bytes sig] ∧ key = some (x, y) ∧
+      ecdsaVerify x y (ResponseFacts.sigStructure prot (readerAuthenticationBytes transcript items)) sig = true := by
+  unfold readerSigAccepts at h
+  split at h
+  · rename_i items prot u1 u2 sig x y h1 h2
+    exact ⟨items, prot, u1, u2, sig, x, y, h1, h2, rfl, h⟩
+  · simp at h
+
+/-- another transcript or other requested items are other bytes: a readerAuth signature made for another
+session, or for another items request, is a signature over DIFFERENT bytes -/
+theorem C11_wire_bytes_injective (t t' : Cbor) (i i' : Bytes)
+    (hw : Cbor.wf (.array [ResponseFacts.tx "ReaderAuthentication", t, .tag 24 (.bytes i)]))
+    (hw' : Cbor.wf (.array [ResponseFacts.tx "ReaderAuthentication", t', .tag 24 (.bytes i')]))
+    (hl : (Cbor.enc (.array [ResponseFacts.tx "ReaderAuthentication", t, .tag 24 (.bytes i)])).length < 2^64)
+    (hl' : (Cbor.enc (.array [ResponseFacts.tx "ReaderAuthentication", t', .tag 24 (.bytes i')])).length < 2^64)
+    (h : readerAuthenticationBytes t i = readerAuthenticationBytes t' i') : t = t' ∧ i = i' := by
+  unfold readerAuthenticationBytes at h
+  have h1 := Cbor.enc_injective _ _ (by simp [Cbor.wf, hl]) (by simp [Cbor.wf, hl']) h
+  simp only [Cbor.tag.injEq, Cbor.bytes.injEq, true_and] at h1
+  have h2 := Cbor.enc_injective _ _ hw hw' h1
+  simpa using h2
+
+end Wire
 
 example : validateRequest [okReq] = .valid := by decide
 example : validateRequest [okReq, absentReq] = .invalid := by decide   -- the former counterexample
